@@ -1,7 +1,9 @@
 /-
 C16 — Captured child output is complete or an error, never silently truncated; the child is not
 left running.  (partial: OS scheduling, pipes, kill/wait are assumed as `Model/Capture.lean` states
-them; everything else is proved for all interleavings, sizes, caps, policies and exit codes.)
+them; everything else is proved for all interleavings, sizes, caps, policies and exit codes —
+including executions in which a `read` of a captured stream or a `write` of the stdin text fails,
+and whatever the stdin writer thread and the child's reading of its stdin do.)
 
 Theorems about the transition system of `Model/Capture.lean`; the inductive invariant and its
 preservation lemmas are in `Lemmas/Capture.lean`.  `Gen/Capture.lean` (regenerated from
@@ -11,6 +13,9 @@ preservation lemmas are in `Lemmas/Capture.lean`.  `Gen/Capture.lean` (regenerat
 import NaijaVerif.Model.Capture
 import NaijaVerif.Lemmas.Capture
 import NaijaVerif.Lemmas.CaptureLive
+import NaijaVerif.Lemmas.CaptureFault
+import NaijaVerif.Lemmas.CaptureTime
+import NaijaVerif.Lemmas.CaptureRead
 import NaijaVerif.Gen.Capture
 
 namespace NaijaVerif.Capture
@@ -37,6 +42,19 @@ non-zero flag is an overflow, D-16 fixed). If /repo still has (or goes back to) 
 `flag == stream_code(stream)`, this obligation breaks and the check searches for the D-16 schedule. -/
 theorem gen_join_checks_any_flag : Gen.Capture.joinAnyFlag = true := by decide
 
+/-- A failing `read` leaves the reader loop through `?` and `join_capture` passes the thread's `Err`
+on before it looks at anything else: the `rdFail` step and the `.failed` arms of `joinOut`/`joinErr`.
+If /repo treats a failing read like end of file (seeded change C16-c1) this obligation breaks and
+the check searches the `rd` stream for the script that shows the shortened result. -/
+theorem gen_reader_error_propagates :
+    Gen.Capture.readErrorPropagates = true ∧ Gen.Capture.joinPassesReaderError = true := by decide
+
+/-- The stdin writer is joined only after the wait loop (`stepMain`, not `stepMainWF`), and maps
+`BrokenPipe` — and nothing else — to `Ok`. If /repo joins it first (seeded change C16-c2) this
+obligation breaks and the check searches the stdin scenarios for the run that is not a timeout. -/
+theorem gen_writer_joined_after_wait :
+    Gen.Capture.writerJoinedAfterWait = true ∧ Gen.Capture.writerEpipeIsOk = true := by decide
+
 /-- The poll interval is floored at one tick, as `wait_poll_ms.max(1)`; the default is positive anyway. -/
 theorem gen_default_poll_pos : 0 < Gen.Capture.defaultPollMs := by decide
 
@@ -51,24 +69,25 @@ theorem inv_step (cfg : Cfg) (plan : Plan) (s s' : State) (l : Label) (h : Inv c
 theorem inv_reachable (cfg : Cfg) (plan : Plan) (ls : List Label) (s : State)
     (hr : run cfg plan (init cfg plan) ls = some s) : Inv cfg plan s := (Inv.init cfg plan).run hr
 
-/-- Conservation, per stream: as long as the reader has not given up, its buffer, the chunk in its
+/-- Conservation, per stream: as long as the reader has not given up (neither stopped on the size
+check nor ended by a failing `read`), its buffer, the chunk in its
 hand, the pipe and what the child has still to write are exactly the planned bytes, in order —
 nothing lost, nothing duplicated, nothing from the other stream. -/
 theorem conservation (cfg : Cfg) (plan : Plan) (ls : List Label) (s : State) (x : Strm)
     (hr : run cfg plan (init cfg plan) ls = some s) (hc : cfg.captured x = true)
-    (hn : (s.side x).rd ≠ .ovf) :
+    (hn : (s.side x).rd ≠ .ovf) (hnf : (s.side x).rd ≠ .failed) :
     (s.side x).acc ++ (s.side x).rd.inHand ++ (s.side x).pipe ++ (s.side x).pending = plan.bytes x := by
   have h := inv_reachable cfg plan ls s hr
   cases x with
   | out =>
     have hna : s.o.rd ≠ .absent := fun ha => by have := h.so.not_captured_of ha; simp_all
     have h1 := h.so.conserve hna hn
-    have h2 := h.so.planned hn
+    have h2 := h.so.planned hn hnf
     simp only [side_out, Plan.bytes]; rw [h1, h2]
   | err =>
     have hna : s.e.rd ≠ .absent := fun ha => by have := h.se.not_captured_of ha; simp_all
     have h1 := h.se.conserve hna hn
-    have h2 := h.se.planned hn
+    have h2 := h.se.planned hn hnf
     simp only [side_err, Plan.bytes]; rw [h1, h2]
 
 /-- The reader's buffer never exceeds the cap. -/
@@ -84,13 +103,47 @@ theorem buffer_within_cap (cfg : Cfg) (plan : Plan) (ls : List Label) (s : State
 /-- Everything known at a terminal state, in one statement (the corollaries below unpack it). -/
 theorem terminal_sound (cfg : Cfg) (plan : Plan) (ls : List Label) (s : State) (r : Outcome)
     (hr : run cfg plan (init cfg plan) ls = some s) (ht : s.result = some r) :
-    allowed cfg plan r = true ∧ s.child.isReaped = true ∧ Good cfg plan s r := by
+    allowedIn cfg plan s r = true ∧ s.child.isReaped = true ∧ Good cfg plan s r := by
   have h := (inv_reachable cfg plan ls s hr).pcInv
   unfold State.result at ht
   unfold PcInv at h
   split at ht
   · next r' hpc => cases ht; simp only [hpc] at h; exact ⟨h.2.1, h.1, h.2⟩
   · cases ht
+
+/-- Without a fault of the runner's own I/O (no `read` of a captured stream and no `write` of the
+stdin text has failed) the outcome is in the fault-free set `allowed` — the statement as it was before
+faults were modelled. -/
+theorem terminal_sound_no_fault (cfg : Cfg) (plan : Plan) (ls : List Label) (s : State) (r : Outcome)
+    (hr : run cfg plan (init cfg plan) ls = some s) (ht : s.result = some r)
+    (hfo : s.o.rd ≠ .failed) (hfe : s.e.rd ≠ .failed) (hfw : s.i.wr ≠ .failed) :
+    allowed cfg plan r = true := by
+  have h := (terminal_sound cfg plan ls s r hr ht).1
+  simp only [allowedIn, Bool.or_eq_true] at h
+  rcases h with h | h
+  · exact h
+  · exfalso
+    have e1 : (s.o.rd == Rd.failed) = false := by simpa using hfo
+    have e2 : (s.e.rd == Rd.failed) = false := by simpa using hfe
+    have e3 : (s.i.wr == Wr.failed) = false := by simpa using hfw
+    rw [e1, e2, e3] at h
+    cases r with
+    | ok st o e => simp [faultAllowed] at h
+    | error e => cases e with
+      | ole x => simp [faultAllowed] at h
+      | timeout => simp [faultAllowed] at h
+      | writeFailed => simp [faultAllowed] at h
+      | readFailed x => cases x <;> simp [faultAllowed] at h
+      | badUtf8 x => cases x <;> simp [faultAllowed] at h
+
+/-- An `ok`, an `OutputLimitExceeded` and a `Timeout` are judged by the fault-free set, faults or not. -/
+theorem allowedIn_plain (cfg : Cfg) (plan : Plan) (s : State) (r : Outcome)
+    (hk : (∃ st o e, r = .ok st o e) ∨ (∃ x, r = .error (.ole x)) ∨ r = .error .timeout)
+    (h : allowedIn cfg plan s r = true) : allowed cfg plan r = true := by
+  simp only [allowedIn, Bool.or_eq_true] at h
+  rcases h with h | h
+  · exact h
+  · rcases hk with ⟨st, o, e, rfl⟩ | ⟨x, rfl⟩ | rfl <;> simp [faultAllowed] at h
 
 /-- **Complete or nothing.** In every terminal state with an `ok` result, for every one of the nine
 stdout/stderr policy combinations, every cap and every interleaving: the child ended by itself as
@@ -107,6 +160,7 @@ theorem ok_is_complete (cfg : Cfg) (plan : Plan) (ls : List Label) (s : State)
     (cfg.polErr = .capture → err = some plan.err ∧ plan.err.length ≤ cfg.cap ∧ validUtf8 plan.err = true) ∧
     (cfg.polErr ≠ .capture → err = none) := by
   obtain ⟨ha, _, hg⟩ := terminal_sound cfg plan ls s _ hr ht
+  have ha := allowedIn_plain cfg plan s _ (Or.inl ⟨_, _, _, rfl⟩) ha
   have hchild := hg.2.2.1 st out err rfl
   simp only [allowed, Bool.and_eq_true, beq_iff_eq, Bool.or_eq_true, Bool.not_eq_true'] at ha
   obtain ⟨⟨⟨⟨⟨⟨hst, hoo⟩, hoe⟩, ho⟩, he⟩, hvo⟩, hve⟩ := ha
@@ -162,6 +216,7 @@ theorem ole_only_if_over (cfg : Cfg) (plan : Plan) (ls : List Label) (s : State)
     (hr : run cfg plan (init cfg plan) ls = some s) (ht : s.result = some (.error (.ole x))) :
     cfg.pol x = .capture ∧ cfg.cap < (plan.bytes x).length := by
   obtain ⟨ha, _, _⟩ := terminal_sound cfg plan ls s _ hr ht
+  have ha := allowedIn_plain cfg plan s _ (Or.inr (Or.inl ⟨_, rfl⟩)) ha
   simpa [allowed, over, Cfg.captured] using ha
 
 /-- `Timeout` only after the deadline. -/
@@ -223,33 +278,47 @@ theorem c16_right_kind_fixed : c16_right_kind true := by
     · rw [hf] at h; cases h
   | err => exact hg.2.2.2.2 rfl
 
-/-- … and then it is also the *plan* that is invalid, the stream is captured and within the cap. -/
+/-- … and then it is also the *plan* that is invalid, the stream is captured and within the cap —
+or (the case read faults add) it is stdout, stderr's reader had failed and closed its pipe, the child
+died of `SIGPIPE` writing to it, and what it had written to stdout until then ends inside a character. -/
 theorem badUtf8_only_if_invalid (cfg : Cfg) (plan : Plan) (ls : List Label) (s : State) (x : Strm)
     (hf : cfg.fixedJoin = true) (hr : run cfg plan (init cfg plan) ls = some s)
     (ht : s.result = some (.error (.badUtf8 x))) :
-    cfg.pol x = .capture ∧ (plan.bytes x).length ≤ cfg.cap ∧ validUtf8 (plan.bytes x) = false := by
+    (cfg.pol x = .capture ∧ (plan.bytes x).length ≤ cfg.cap ∧ validUtf8 (plan.bytes x) = false) ∨
+    (x = .out ∧ s.e.rd = .failed ∧ plan.sigpipeDies = true ∧ cfg.polOut = .capture ∧
+      prefixInvalid cfg.cap plan.out = true) := by
   obtain ⟨ha, _, _⟩ := terminal_sound cfg plan ls s _ hr ht
+  simp only [allowedIn, Bool.or_eq_true] at ha
   cases x with
   | out =>
-    simp only [allowed, hf, Bool.and_eq_true, Bool.not_eq_true', Bool.not_true,
-      Bool.false_and, Bool.or_false] at ha
-    obtain ⟨hc, hno, hv⟩ := ha
-    have hc' : cfg.polOut = .capture := by simpa [Cfg.captured, Cfg.pol] using hc
-    rw [over_eq_false_iff] at hno; simp only [hc, Bool.true_eq_false, false_or, Plan.bytes] at hno
-    exact ⟨hc', by simp only [Plan.bytes]; omega, hv⟩
+    rcases ha with ha | ha
+    · left
+      simp only [allowed, hf, Bool.and_eq_true, Bool.not_eq_true', Bool.not_true,
+        Bool.false_and, Bool.or_false] at ha
+      obtain ⟨hc, hno, hv⟩ := ha
+      have hc' : cfg.polOut = .capture := by simpa [Cfg.captured, Cfg.pol] using hc
+      rw [over_eq_false_iff] at hno; simp only [hc, Bool.true_eq_false, false_or, Plan.bytes] at hno
+      exact ⟨hc', by simp only [Plan.bytes]; omega, hv⟩
+    · right
+      simp only [faultAllowed, Bool.and_eq_true, beq_iff_eq] at ha
+      obtain ⟨⟨⟨h1, h2⟩, h3⟩, h4⟩ := ha
+      exact ⟨rfl, h1, h2, by simpa [Cfg.captured, Cfg.pol] using h3, h4⟩
   | err =>
-    simp only [allowed, Bool.and_eq_true, Bool.or_eq_true, Bool.not_eq_true'] at ha
-    obtain ⟨⟨⟨⟨hc, hno⟩, _⟩, hv⟩, _⟩ := ha
-    have hc' : cfg.polErr = .capture := by simpa [Cfg.captured, Cfg.pol] using hc
-    rw [over_eq_false_iff] at hno; simp only [hc, Bool.true_eq_false, false_or, Plan.bytes] at hno
-    exact ⟨hc', by simp only [Plan.bytes]; omega, hv⟩
+    rcases ha with ha | ha
+    · left
+      simp only [allowed, Bool.and_eq_true, Bool.or_eq_true, Bool.not_eq_true'] at ha
+      obtain ⟨⟨⟨⟨hc, hno⟩, _⟩, hv⟩, _⟩ := ha
+      have hc' : cfg.polErr = .capture := by simpa [Cfg.captured, Cfg.pol] using hc
+      rw [over_eq_false_iff] at hno; simp only [hc, Bool.true_eq_false, false_or, Plan.bytes] at hno
+      exact ⟨hc', by simp only [Plan.bytes]; omega, hv⟩
+    · simp [faultAllowed] at ha
 
 /-- The pinned commit's `join_capture` (only the stream's own code is recognised): the D-16 witness.
 cap 4; stdout `"€€"`, stderr `"₩₩"`, both valid. The waiter loads the flag (still 0); the child
 writes 4 bytes of stdout (the reader buffers `€` + the first byte of the next `€`), then all of
 stderr (its reader overflows and wins the CAS), then the rest of stdout (its reader overflows,
-loses the CAS and keeps its truncated buffer), and exits; `try_wait` sees the exit;
-`join_capture(stdout)` sees flag 2 ≠ 1 and validates the truncated buffer. -/
+loses the CAS and keeps its truncated buffer), and exits; `try_wait` sees the exit; there
+is no stdin writer to join; `join_capture(stdout)` sees flag 2 ≠ 1 and validates the truncated buffer. -/
 def d16Cfg : Cfg :=
   { cap := 4, chunk := 8192, pipeCap := 65536, polOut := .capture, polErr := .capture,
     timeout := 1000, poll := 1, fixedJoin := false }
@@ -258,7 +327,7 @@ def d16Plan : Plan := { out := b!"€€", err := b!"₩₩", ending := .code 0,
 
 def d16Labels : List Label :=
   [.main, .childWrite .out 4, .rdRead .out, .rdCheck .out, .childWrite .err 6, .rdRead .err,
-   .rdCheck .err, .childWrite .out 2, .rdRead .out, .rdCheck .out, .childEnd, .main, .main, .main]
+   .rdCheck .err, .childWrite .out 2, .rdRead .out, .rdCheck .out, .childEnd, .main, .main, .main, .main]
 
 theorem c16_pinned_wrong_kind : ¬ c16_right_kind false := by
   intro h
@@ -301,6 +370,7 @@ theorem over_limit_is_never_ok (cfg : Cfg) (plan : Plan) (ls : List Label) (s : 
   | error e => exact ⟨e, rfl⟩
   | ok st o e =>
     obtain ⟨ha, _, _⟩ := terminal_sound cfg plan ls s _ hr ht
+    have ha := allowedIn_plain cfg plan s _ (Or.inl ⟨_, _, _, rfl⟩) ha
     simp only [allowed, Bool.and_eq_true, Bool.not_eq_true'] at ha
     cases x <;> simp_all
 
@@ -312,29 +382,33 @@ an over-limit or overrunning child (`over_limit_is_never_ok`, `hang_is_never_ok`
 
 * `no_deadlock`: in a reachable non-terminal state the runner can always move by itself (it never
   waits for the child to cooperate): the main thread is enabled, or it sleeps and waits for time, or
-  it waits in a join for a reader that is enabled.
+  it waits in a join for a reader that is enabled, or in `join_writer` for a writer that is enabled
+  (the child is gone by then, so the writer ends or gets `EPIPE`: `writer_can_finish`).
 * `bounded_work`: a variant `State.mu` is strictly decreased by every step that is not a tick and
   never increased by a tick, so an execution contains at most `μ(init)` non-tick steps — a number
-  linear in the timeout and the planned output. No schedule keeps the runner busy for ever. -/
+  linear in the timeout, the planned output and the stdin text. No schedule keeps the runner busy
+  for ever. -/
 
 theorem no_deadlock (cfg : Cfg) (plan : Plan) (ls : List Label) (s : State) (hchunk : 0 < cfg.chunk)
     (hr : run cfg plan (init cfg plan) ls = some s) (hnt : s.result = none) :
     (step cfg plan s .main).isSome = true ∨ (∃ w, s.pc = .sleep w ∧ s.now < w) ∨
-      (∃ x, readerEnabled cfg plan s x) :=
+      (∃ x, readerEnabled cfg plan s x) ∨ writerEnabled cfg plan s :=
   progress_of_inv hchunk (inv_reachable cfg plan ls s hr) hnt
 
 /-- A state in which nothing but the child could move and no sleep is pending is terminal. -/
 theorem stuck_is_terminal (cfg : Cfg) (plan : Plan) (ls : List Label) (s : State) (hchunk : 0 < cfg.chunk)
     (hr : run cfg plan (init cfg plan) ls = some s)
     (hmain : step cfg plan s .main = none) (hsleep : ∀ w, s.pc = .sleep w → w ≤ s.now)
-    (hrd : ∀ x, ¬ readerEnabled cfg plan s x) : ∃ r, s.result = some r := by
+    (hrd : ∀ x, ¬ readerEnabled cfg plan s x) (hwr : ¬ writerEnabled cfg plan s) :
+    ∃ r, s.result = some r := by
   cases hres : s.result with
   | some r => exact ⟨r, rfl⟩
   | none =>
-    rcases no_deadlock cfg plan ls s hchunk hr hres with h | ⟨w, hw, hlt⟩ | ⟨x, hx⟩
+    rcases no_deadlock cfg plan ls s hchunk hr hres with h | ⟨w, hw, hlt⟩ | ⟨x, hx⟩ | hx
     · simp [hmain] at h
     · have := hsleep w hw; omega
     · exact absurd hx (hrd x)
+    · exact absurd hx hwr
 
 theorem step_decreases_variant (cfg : Cfg) (plan : Plan) (s s' : State) (l : Label)
     (h : step cfg plan s l = some s') : (l ≠ .tick → s'.mu cfg < s.mu cfg) ∧ s'.mu cfg ≤ s.mu cfg := by
@@ -344,15 +418,402 @@ theorem step_decreases_variant (cfg : Cfg) (plan : Plan) (s s' : State) (l : Lab
 
 theorem bounded_work (cfg : Cfg) (plan : Plan) (ls : List Label) (s : State)
     (hr : run cfg plan (init cfg plan) ls = some s) :
-    nonTicks ls ≤ 5 * cfg.timeout + 5 * (plan.out.length + plan.err.length) + 14 := by
+    nonTicks ls ≤ 5 * cfg.timeout + 5 * (plan.out.length + plan.err.length) + 2 * cfg.stdin.getD 0 + 18 := by
   have h := run_nonTicks_le hr
-  have hi : (init cfg plan).mu cfg ≤ 5 * cfg.timeout + 5 * (plan.out.length + plan.err.length) + 14 := by
+  have hi : (init cfg plan).mu cfg ≤
+      5 * cfg.timeout + 5 * (plan.out.length + plan.err.length) + 2 * cfg.stdin.getD 0 + 18 := by
     simp only [State.mu, init, Side.init, Pc.mu, Side.mu, Child.mu, List.length_nil]
     have h1 : ∀ p : Policy, (if p = .capture then Rd.idle else Rd.absent).rank ≤ 2 := by
       intro p; split <;> simp [Rd.rank]
     have := h1 cfg.polOut; have := h1 cfg.polErr
+    have h2 : (Inp.init cfg.stdin).mu ≤ 2 * cfg.stdin.getD 0 + 2 := by
+      cases cfg.stdin <;> simp [Inp.init, Inp.mu]
     omega
   omega
+
+/-! ### Read faults: a failing `read` of a captured stream
+
+The reader loop leaves through `?`; the thread ends with `Err`; `join_capture` turns that into the
+run's error. The seeded change C16-c1 (`while let Ok(n) = reader.read(..)`) is the loop that treats
+the failure like end of file: `gen_reader_error_propagates` ties the source to the loop modelled
+here, and the `rd` requests run the real loop against `readLoop` on scripted readers. -/
+
+theorem result_iff (s : State) (r : Outcome) : s.result = some r ↔ s.pc = .done r := by
+  unfold State.result
+  constructor
+  · intro h; split at h
+    · next r' hpc => cases h; exact hpc
+    · cases h
+  · intro h; simp [h]
+
+/-- **A failed read is an error, never a result.** In every execution in which a `read` of a captured
+stream fails — at any point: before the first byte, between two chunks, after the child has gone —
+a terminal state holds an error; no `ok`, shortened or otherwise. -/
+theorem read_fault_is_never_ok (cfg : Cfg) (plan : Plan) (ls : List Label) (s : State) (r : Outcome)
+    (x : Strm) (hr : run cfg plan (init cfg plan) ls = some s) (hf : Label.rdFail x ∈ ls)
+    (ht : s.result = some r) : ∃ e, r = .error e := by
+  cases r with
+  | error e => exact ⟨e, rfl⟩
+  | ok st o e =>
+    exfalso
+    have hfail := run_failed_of_mem hr hf
+    obtain ⟨hjo, hje⟩ := (OkJoined.init cfg plan).run (Inv.init cfg plan) hr st o e ((result_iff s _).mp ht)
+    cases x
+    · exact Side.not_failed_of_joined hjo hfail
+    · exact Side.not_failed_of_joined hje hfail
+
+/-- … and it is an error of the right kind: the reader's failure itself (`SpawnFailed`, only for a
+stream whose `read` did fail), or one of the errors the fault-free run could also end in
+(`OutputLimitExceeded` of a stream the child did overfill; `Timeout` after the deadline;
+`InvalidUtf8` of bytes that are not valid UTF-8), and the child is gone. -/
+theorem read_fault_error_kind (cfg : Cfg) (plan : Plan) (ls : List Label) (s : State) (e : Err)
+    (hr : run cfg plan (init cfg plan) ls = some s) (ht : s.result = some (.error e)) :
+    s.child.isReaped = true ∧
+    (∀ y, e = .readFailed y → (s.side y).rd = .failed ∧ cfg.pol y = .capture) ∧
+    (e = .writeFailed → s.i.wr = .failed) ∧
+    (∀ y, e = .ole y → cfg.pol y = .capture ∧ cfg.cap < (plan.bytes y).length) ∧
+    (e = .timeout → cfg.timeout ≤ s.now) ∧
+    (∀ y, e = .badUtf8 y → cfg.fixedJoin = true → validUtf8 (s.side y).written = false) := by
+  obtain ⟨ha, hreap, hg⟩ := terminal_sound cfg plan ls s _ hr ht
+  have hinv := inv_reachable cfg plan ls s hr
+  refine ⟨hreap, ?_, ?_, ?_, ?_, ?_⟩
+  · intro y hy; subst hy
+    simp only [allowedIn, allowed, Bool.false_or] at ha
+    cases y with
+    | out =>
+      simp only [faultAllowed, beq_iff_eq] at ha
+      refine ⟨ha, ?_⟩
+      have := hinv.so.captured_of (by simp [ha])
+      simpa [Cfg.captured] using this
+    | err =>
+      simp only [faultAllowed, beq_iff_eq] at ha
+      refine ⟨ha, ?_⟩
+      have := hinv.se.captured_of (by simp [ha])
+      simpa [Cfg.captured] using this
+  · intro hy; subst hy
+    simpa [allowedIn, allowed, faultAllowed] using ha
+  · intro y hy; subst hy
+    exact ole_only_if_over cfg plan ls s y hr ht
+  · intro hy; subst hy
+    exact timeout_only_after_deadline cfg plan ls s hr ht
+  · intro y hy hfix; subst hy
+    exact c16_right_kind_fixed cfg plan ls s y hfix hr ht
+
+/-- Non-vacuity: stdout's `read` fails between two chunks (3 of 5 bytes buffered): the run ends in
+the reader's error, not in `ok "hel"`; the child is reaped. -/
+example :
+    (run d16Cfg { out := b!"hello", err := [], ending := .code 0, sigpipeDies := false }
+      (init d16Cfg { out := b!"hello", err := [], ending := .code 0, sigpipeDies := false })
+      [.main, .childWrite .out 3, .rdRead .out, .rdCheck .out, .rdFail .out, .childDrop .out 2,
+       .childEnd, .main, .main, .main]).map (fun s => (s.result, s.child))
+    = some (some (.error (.readFailed .out)), .reaped (some 0) .plan) := by decide
+
+/-- Non-vacuity: the very first `read` of stderr fails, stdout is complete and fine: still an error. -/
+example :
+    (run { d16Cfg with cap := 5 } { out := b!"hello", err := b!"x", ending := .code 0, sigpipeDies := false }
+      (init { d16Cfg with cap := 5 } { out := b!"hello", err := b!"x", ending := .code 0, sigpipeDies := false })
+      [.rdFail .err, .childWrite .out 5, .childDrop .err 1, .childEnd, .rdRead .out, .rdCheck .out,
+       .rdEof .out, .main, .main, .main, .main, .main, .main]).map State.result
+    = some (some (.error (.readFailed .err))) := by decide
+
+/-- Non-vacuity: a failed read and an overflow of the other stream: the waiter's kill path wins. -/
+example :
+    (run d16Cfg { out := b!"hello", err := b!"x", ending := .never, sigpipeDies := false }
+      (init d16Cfg { out := b!"hello", err := b!"x", ending := .never, sigpipeDies := false })
+      [.rdFail .err, .childWrite .out 5, .rdRead .out, .rdCheck .out, .main, .main, .main, .main,
+       .main, .main]).map (fun s => (s.result, s.child))
+    = some (some (.error (.ole .out)), .reaped none .killed) := by decide
+
+/-- **The executable reader loop is the transition system's reader.** Iterating the reader steps of
+a side (`Side.read`, `Side.check`, `Side.eof`, `Side.fail` — what `step` does for `rdRead`, `rdCheck`,
+`rdEof`, `rdFail`) over a script gives the result (`Ok(buf)` / `Err`), the buffer and the flag that
+`readLoop` computes, and the thread has then finished. -/
+theorem readLoop_is_lts_reader (chunk cap my : Nat) (hchunk : 0 < chunk) (evs : List RdEv)
+    (flag : Nat) (d : Side) (hd : d.rd = .idle) (hsz : ∀ c, RdEv.data c ∈ evs → c.length ≤ chunk) :
+    RdRes.ofSide (Side.feed chunk cap my flag d evs).1 = (readLoop cap my flag d.acc evs).1 ∧
+    (Side.feed chunk cap my flag d evs).2 = (readLoop cap my flag d.acc evs).2 ∧
+    (Side.feed chunk cap my flag d evs).1.finished = true :=
+  Side.feed_eq_readLoop chunk cap my hchunk evs flag d hd hsz
+
+/-- … and the driver's splitting of long data into reads of at most `chunk` bytes meets its
+hypothesis, for the chunk size extracted from the source. -/
+theorem expanded_reads_fit (evs : List RdEv) (c : Bytes)
+    (h : RdEv.data c ∈ expandEvents Gen.Capture.chunk evs) : c.length ≤ Gen.Capture.chunk :=
+  expandEvents_le gen_chunk_pos evs c h
+
+/-- **The loop never shortens silently.** `Ok(buf)` with the flag still clear means: no `read`
+failed before the end of the stream, and `buf` is every byte read up to it. -/
+theorem readLoop_unflagged_ok_is_complete (cap my : Nat) (hmy : my ≠ 0) (evs : List RdEv)
+    (out : Bytes) (h : readLoop cap my 0 [] evs = (.ok out, 0)) : cleanData evs = some out := by
+  obtain ⟨rest, h1, h2⟩ := readLoop_clean cap my hmy evs [] out h
+  simpa [h2] using h1
+
+/-- A `read` that fails after any amount of data within the cap makes the loop return `Err`. -/
+theorem readLoop_fail_is_err (cap my flag : Nat) (pre : List RdEv) (post : List RdEv)
+    (hpre : ∀ e ∈ pre, ∃ c, e = RdEv.data c ∧ c ≠ [])
+    (hsum : (pre.map RdEv.size).sum ≤ cap) :
+    readLoop cap my flag [] (pre ++ .fail :: post) = (.err, flag) :=
+  readLoop_err_of_fail cap my flag pre [] post hpre (by simpa using hsum)
+
+/-- `joinCapture` — `join_capture` written as a function of the reader thread's result and the flag
+— is what the main thread's `joinOut` and `flagOut` statements compute: a reader `Err` is the run's
+error before the flag is looked at. (Its tie to the source is static, `gen_reader_error_propagates`:
+`join_capture` is deliberately not hooked.) -/
+theorem joinCapture_is_main_thread_join (cfg : Cfg) (s : State) (st : Option Nat)
+    (hpc : s.pc = .joinOut st) (hfin : s.o.finished = true) (hna : s.o.rd ≠ .absent) :
+    (joinOutSteps cfg s).map State.pc = some
+      (match joinCapture cfg.fixedJoin s.flag .out (RdRes.ofSide s.o) with
+       | .error e => .done (.error e)
+       | .text b => .joinErr st (some b)) :=
+  joinCapture_is_lts_join cfg s st hpc hfin hna
+
+/-- The script of the seeded change's demonstration: "hello ", a failing read, "world", end of file. -/
+example : readLoop 100 1 0 [] [.data (b!"hello "), .fail, .data (b!"world"), .zero] = (.err, 0) := by decide
+example : joinCapture true 0 .out (readLoop 100 1 0 [] [.data (b!"hello "), .fail, .data (b!"world")]).1
+    = .error (.readFailed .out) := by decide
+
+/-! ### The stdin writer thread
+
+`join_writer` comes after the wait loop. (i) Nothing in the wait loop or on the kill path reads or
+waits for the stdin side, so the deadline, the overflow flag and the kill are acted on whatever the
+writer is doing — in particular while it is blocked on a full pipe that the child does not read.
+(ii) By the time the main thread joins the writer the child is gone, so the writer can end. The other
+order (`stepMainWF`, seeded change C16-c2) fails both. -/
+
+/-- (i) The main thread's step in the wait loop and on the kill path is the same for every state of
+the stdin pipe and its writer: same successor, stdin side untouched. -/
+theorem wait_loop_ignores_writer (cfg : Cfg) (s : State) (i' : Inp) (hw : s.pc.inWait = true) :
+    stepMain cfg { s with i := i' } = (stepMain cfg s).map (fun t => { t with i := i' }) :=
+  stepMain_inWait_indep cfg s i' hw
+
+/-- (i) … and it is never blocked there except by its own `sleep`: flag load, `try_wait`, deadline
+check, `kill` and `wait` are enabled in every reachable state, whatever the writer does. -/
+theorem wait_loop_never_blocks (cfg : Cfg) (plan : Plan) (ls : List Label) (s : State)
+    (hr : run cfg plan (init cfg plan) ls = some s) (hw : s.pc.inWait = true) :
+    (step cfg plan s .main).isSome = true ∨ ∃ w, s.pc = .sleep w ∧ s.now < w := by
+  have hp := (inv_reachable cfg plan ls s hr).pcInv
+  unfold PcInv at hp
+  cases hpc : s.pc <;> simp only [hpc, Pc.inWait] at hw hp <;> try (cases hw)
+  case load => left; simp only [step, stepMain, hpc]; split <;> rfl
+  case tryWait =>
+    left; simp only [step, stepMain, hpc]
+    cases hc : s.child <;> simp_all [Child.isReaped]
+  case deadline => left; simp only [step, stepMain, hpc]; split <;> rfl
+  case sleep w =>
+    by_cases hw : w ≤ s.now
+    · left; simp [step, stepMain, hpc, hw]
+    · right; exact ⟨w, rfl, by omega⟩
+  case kill e => left; simp only [step, stepMain, hpc]; split <;> rfl
+  case reap e =>
+    left; simp only [step, stepMain, hpc]
+    cases hc : s.child <;> simp_all [Child.isZombie]
+
+/-- (ii) **The join of the writer terminates.** When the main thread is at `join_writer` — after the
+kill and the `wait`, or after the child ended by itself — the child is gone: either the writer has
+already finished, or one step of it is enabled (it ends, or its `write` gets `EPIPE`) after which
+`join_writer` returns. -/
+theorem join_writer_terminates (cfg : Cfg) (plan : Plan) (ls : List Label) (s : State)
+    (hr : run cfg plan (init cfg plan) ls = some s)
+    (hpc : (∃ e, s.pc = .eJoinWr e) ∨ (∃ st, s.pc = .joinWr st)) :
+    s.child.isReaped = true ∧
+    ((step cfg plan s .main).isSome = true ∨
+      ∃ l s', (l = .wrEnd ∨ l = .wrEpipe) ∧ step cfg plan s l = some s' ∧
+        (step cfg plan s' .main).isSome = true) := by
+  have hp := (inv_reachable cfg plan ls s hr).pcInv
+  unfold PcInv at hp
+  have hreap : s.child.isReaped = true := by
+    rcases hpc with ⟨e, hpc⟩ | ⟨st, hpc⟩ <;> simp only [hpc] at hp
+    · exact hp.1
+    · exact hp.1
+  have hdead : s.child.isAlive = false := by
+    cases hc : s.child <;> simp_all [Child.isReaped, Child.isAlive]
+  refine ⟨hreap, ?_⟩
+  cases hfin : s.i.finished
+  · right
+    have hmain : ∀ i', i'.wr = .fin → (step cfg plan { s with i := i' } .main).isSome = true := by
+      intro i' hi'
+      rcases hpc with ⟨e, hpc⟩ | ⟨st, hpc⟩ <;> simp [step, stepMain, hpc, hi', Inp.finished]
+    rcases writerEnabled_of (cfg := cfg) (plan := plan) hfin hdead with hw | hw
+    · simp only [step, Option.isSome_map] at hw
+      obtain ⟨i', hi'⟩ := Option.isSome_iff_exists.mp hw
+      exact ⟨.wrEnd, { s with i := i' }, Or.inl rfl, by simp [step, hi'], hmain i' (Inp.finish_wr hi').2⟩
+    · simp only [step, Option.isSome_map] at hw
+      obtain ⟨i', hi'⟩ := Option.isSome_iff_exists.mp hw
+      exact ⟨.wrEpipe, { s with i := i' }, Or.inr rfl, by simp [step, hi'], hmain i' (Inp.epipe_wr hi').2⟩
+  · left
+    rcases hpc with ⟨e, hpc⟩ | ⟨st, hpc⟩
+    · simp [step, stepMain, hpc, hfin]
+    · simp only [step, stepMain, hpc]
+      unfold Inp.finished at hfin
+      cases hw : s.i.wr <;> simp_all
+
+/-- The statement about a child that outlives its deadline, for a main-thread program given by its
+step function, the transition function, the run function and the initial state: with the main thread
+prompt (time passes only while it is blocked), a child that is still asleep one poll interval after
+the deadline never yields a result. No condition on the stdin text or on what the child does with it. -/
+def c16_outliving (mainF : Cfg → State → Option State)
+    (stepF : Cfg → Plan → State → Label → Option State)
+    (runF : Cfg → Plan → State → List Label → Option State) (initF : Cfg → Plan → State) : Prop :=
+  ∀ (cfg : Cfg) (plan : Plan) (ls : List Label) (s : State) (r : Outcome),
+    cfg.timeout + max cfg.poll 1 ≤ plan.endAfter →
+    runF cfg plan (initF cfg plan) ls = some s →
+    prompt (mainF cfg) (stepF cfg plan) (initF cfg plan) ls = true →
+    s.result = some r → ∃ e, r = .error e
+
+/-- The progress statement (`no_deadlock`) for a main-thread program. -/
+def c16_progress (mainF : Cfg → State → Option State)
+    (runF : Cfg → Plan → State → List Label → Option State) (initF : Cfg → Plan → State) : Prop :=
+  ∀ (cfg : Cfg) (plan : Plan) (ls : List Label) (s : State), 0 < cfg.chunk →
+    runF cfg plan (initF cfg plan) ls = some s → s.result = none →
+    (mainF cfg s).isSome = true ∨ (∃ w, s.pc = .sleep w ∧ s.now < w) ∨
+      (∃ x, readerEnabled cfg plan s x) ∨ writerEnabled cfg plan s
+
+theorem timeInv_reachable (cfg : Cfg) (plan : Plan) (ls : List Label) (s : State)
+    (hr : run cfg plan (init cfg plan) ls = some s)
+    (hp : prompt (stepMain cfg) (step cfg plan) (init cfg plan) ls = true) : TimeInv cfg plan s :=
+  (TimeInv.init cfg plan).run (Inv.init cfg plan) hr hp
+
+/-- (i) **A child that outlives the deadline is never a success, whatever the stdin size.** -/
+theorem outliving_child_is_never_ok : c16_outliving stepMain step run init := by
+  intro cfg plan ls s r hlate hr hp ht
+  cases r with
+  | error e => exact ⟨e, rfl⟩
+  | ok st o e =>
+    exfalso
+    have hpc := (result_iff s _).mp ht
+    have hchild := (ok_is_complete cfg plan ls s st o e hr ht).1
+    have := (timeInv_reachable cfg plan ls s hr hp).okEarly (by simp [hpc, Pc.okPath])
+      (by simp [hchild, Child.cause?])
+    simp only [Cfg.pollTicks] at this
+    omega
+
+/-- … and without a fault of the runner's own I/O and without an over-limit stream it is exactly
+`Timeout`, with the child killed and reaped. -/
+theorem outliving_child_times_out (cfg : Cfg) (plan : Plan) (ls : List Label) (s : State) (r : Outcome)
+    (hlate : cfg.timeout + max cfg.poll 1 ≤ plan.endAfter)
+    (hr : run cfg plan (init cfg plan) ls = some s)
+    (hp : prompt (stepMain cfg) (step cfg plan) (init cfg plan) ls = true)
+    (ht : s.result = some r)
+    (hfo : s.o.rd ≠ .failed) (hfe : s.e.rd ≠ .failed) (hfw : s.i.wr ≠ .failed)
+    (hoo : over cfg plan .out = false) (hoe : over cfg plan .err = false) :
+    r = .error .timeout ∧ s.child.isReaped = true := by
+  have hti := timeInv_reachable cfg plan ls s hr hp
+  have hinv := inv_reachable cfg plan ls s hr
+  have hpc := (result_iff s _).mp ht
+  obtain ⟨_, hreap, _⟩ := terminal_sound cfg plan ls s r hr ht
+  have hall := terminal_sound_no_fault cfg plan ls s r hr ht hfo hfe hfw
+  refine ⟨?_, hreap⟩
+  -- a result that only the success path produces needs a child that ended by itself
+  have hself : s.pc.okPath = true → False := by
+    intro hok
+    have h1 := hti.okEarly hok
+    have h2 := hti.notKilled hok
+    cases hc : s.child with
+    | alive => simp [hc, Child.isReaped] at hreap
+    | zombie st c => simp [hc, Child.isReaped] at hreap
+    | reaped st c =>
+      cases c with
+      | killed => simp [hc, Child.cause?] at h2
+      | plan =>
+        have := h1 (by simp [hc, Child.cause?])
+        simp only [Cfg.pollTicks] at this
+        omega
+      | sigpipe =>
+        rcases (hinv.causeSig (by simp [hc, Child.cause?])).1 with h0 | h0 | h0
+        · rcases hinv.flagRange with h | h | h
+          · exact h0 h
+          · have := hinv.over_of_flag (x := .out) (by simp [code, h]); simp [hoo] at this
+          · have := hinv.over_of_flag (x := .err) (by simp [code, h]); simp [hoe] at this
+        · exact hfo h0
+        · exact hfe h0
+  cases r with
+  | ok st o e => exact (hself (by simp [hpc, Pc.okPath])).elim
+  | error e =>
+    cases e with
+    | timeout => rfl
+    | ole x => cases x <;> simp [allowed, hoo, hoe] at hall
+    | badUtf8 x => exact (hself (by simp [hpc, Pc.okPath])).elim
+    | readFailed x => exact (hself (by simp [hpc, Pc.okPath])).elim
+    | writeFailed => exact (hself (by simp [hpc, Pc.okPath])).elim
+
+theorem no_deadlock_statement : c16_progress stepMain run init := by
+  intro cfg plan ls s hchunk hr hnt
+  simpa [step] using no_deadlock cfg plan ls s hchunk hr hnt
+
+/-- Non-vacuity of `outliving_child_times_out`, with 3 bytes of stdin text into a pipe of 2 that
+the child never reads: the writer blocks after 2 bytes; the main thread polls, sleeps, sees the
+deadline (1 tick) while the child is still asleep (it would end at tick 5), kills and reaps it; the
+writer's next `write` gets `EPIPE`; the joins return; `Timeout`. The execution is prompt. -/
+def slowCfg : Cfg := { d16Cfg with pipeCap := 2, timeout := 1, poll := 1, fixedJoin := true, stdin := some 3 }
+def slowPlan : Plan := { out := [], err := [], ending := .code 0, sigpipeDies := false, endAfter := 5 }
+def slowLabels : List Label :=
+  [.wrWrite 2, .main, .main, .main, .tick, .main, .main, .main, .main, .main, .wrEpipe, .main,
+   .rdEof .out, .rdEof .err, .main, .main, .main]
+
+example : (run slowCfg slowPlan (init slowCfg slowPlan) slowLabels).map (fun s => (s.result, s.child, s.i.wr))
+    = some (some (.error .timeout), .reaped none .killed, .fin) := by decide
+example : prompt (stepMain slowCfg) (step slowCfg slowPlan) (init slowCfg slowPlan) slowLabels = true := by decide
+example : slowCfg.timeout + max slowCfg.poll 1 ≤ slowPlan.endAfter := by decide
+
+/-- The same child and stdin text under the *other* order: the main thread sits in `join_writer`
+while the writer is blocked; five ticks pass; the child ends by itself; the writer gets `EPIPE`;
+`wait_for_child` starts its clock, `try_wait` succeeds at once: an ordinary success for a child that
+ran to five times its timeout. The execution is prompt (time passes only while the main thread is
+blocked). -/
+def wfLabels : List Label :=
+  [.wrWrite 2, .tick, .tick, .tick, .tick, .tick, .childEnd, .wrEpipe, .main, .main, .main,
+   .rdEof .out, .rdEof .err, .main, .main, .main, .main]
+
+/-- With a child that never ends, the other order is stuck for good after one step of the writer:
+the main thread waits for the writer, the writer for room in the pipe, nobody for the clock. -/
+def wfStuckPlan : Plan := { slowPlan with ending := .never }
+
+/-- **The other order is wrong** (seeded change C16-c2): joining the stdin writer before the wait
+loop violates both statements — a child that outlives its deadline is reported as a success, and a
+reachable state exists in which the runner cannot move and is not waiting for time. -/
+theorem c16_writer_first_is_wrong :
+    ¬ c16_outliving stepMainWF stepWF runWF initWF ∧ ¬ c16_progress stepMainWF runWF initWF := by
+  constructor
+  · intro h
+    have hrun : (runWF slowCfg slowPlan (initWF slowCfg slowPlan) wfLabels).map State.result
+        = some (some (.ok (some 0) (some []) (some []))) := by decide
+    cases hs : runWF slowCfg slowPlan (initWF slowCfg slowPlan) wfLabels with
+    | none => simp [hs] at hrun
+    | some s =>
+      simp only [hs, Option.map_some, Option.some.injEq] at hrun
+      obtain ⟨e, he⟩ := h slowCfg slowPlan wfLabels s _ (by decide) hs (by decide) hrun
+      cases he
+  · intro h
+    have hrun : (runWF slowCfg wfStuckPlan (initWF slowCfg wfStuckPlan) [.wrWrite 2]).map
+        (fun s => (s.pc, s.i, s.child)) = some (.preJoinWr, ⟨1, 2, .busy, true⟩, .alive) := by decide
+    have hrun' : (runWF slowCfg wfStuckPlan (initWF slowCfg wfStuckPlan) [.wrWrite 2]).map
+        (fun s => ((s.o.rd, s.e.rd), (s.o.pipe, s.e.pipe))) = some ((.idle, .idle), ([], [])) := by decide
+    cases hs : runWF slowCfg wfStuckPlan (initWF slowCfg wfStuckPlan) [.wrWrite 2] with
+    | none => simp [hs] at hrun
+    | some s =>
+      simp only [hs, Option.map_some, Option.some.injEq, Prod.mk.injEq] at hrun hrun'
+      obtain ⟨hpc, hi, hch⟩ := hrun
+      obtain ⟨⟨hro, hre⟩, hpo, hpe⟩ := hrun'
+      have hres : s.result = none := by simp [State.result, hpc]
+      rcases h slowCfg wfStuckPlan [.wrWrite 2] s (by decide) hs hres with hm | ⟨w, hw, _⟩ | ⟨x, hx⟩ | hx
+      · simp [stepMainWF, hpc, hi] at hm
+      · rw [hpc] at hw; cases hw
+      · unfold readerEnabled at hx
+        cases x <;>
+          simp [step, Side.read, Side.check, Side.eof, hro, hre, hpo, hpe, hch, Child.isAlive] at hx
+      · unfold writerEnabled at hx
+        rcases hx with ⟨n, hn⟩ | hn | hn
+        · simp only [step, Option.isSome_map, Inp.write, hi, slowCfg, d16Cfg] at hn
+          split at hn
+          · next hc => omega
+          · simp at hn
+        · simp [step, Inp.finish, hi] at hn
+        · simp [step, Inp.epipe, hi, Inp.readable, hch, Child.isAlive] at hn
+
+/-- Under the order of the code the same stuck-looking state moves on: the main thread is not in
+`join_writer` but in the wait loop, which is enabled. -/
+example : ((run slowCfg wfStuckPlan (init slowCfg wfStuckPlan) [.wrWrite 2]).bind
+    (fun s => step slowCfg wfStuckPlan s .main)).isSome = true := by decide
 
 /-! ### Non-vacuity: concrete executions reach each kind of terminal state -/
 
@@ -362,7 +823,7 @@ example :
       (init { d16Cfg with cap := 5, polErr := .null } { out := b!"hello", err := b!"x", ending := .code 3, sigpipeDies := false })
       [.childWrite .out 2, .rdRead .out, .main, .childWrite .err 1, .childWrite .out 3, .rdCheck .out,
        .main, .main, .tick, .rdRead .out, .childEnd, .main, .main, .rdCheck .out, .rdEof .out, .main,
-       .main, .main, .main]).map State.result
+       .main, .main, .main, .main]).map State.result
     = some (some (.ok (some 3) (some (b!"hello")) none)) := by decide
 
 /-- One byte over the cap, child exits before the waiter looks again: the post-exit re-check of the
@@ -370,7 +831,7 @@ flag in `join_capture` turns it into the error. -/
 example :
     (run d16Cfg { out := b!"hello", err := [], ending := .code 0, sigpipeDies := false }
       (init d16Cfg { out := b!"hello", err := [], ending := .code 0, sigpipeDies := false })
-      [.main, .childWrite .out 5, .childEnd, .main, .rdRead .out, .rdCheck .out, .main, .main]).map State.result
+      [.main, .childWrite .out 5, .childEnd, .main, .rdRead .out, .rdCheck .out, .main, .main, .main]).map State.result
     = some (some (.error (.ole .out))) := by decide
 
 /-- A hanging child: timeout after the deadline, killed and reaped. -/
@@ -378,7 +839,7 @@ example :
     (run { d16Cfg with timeout := 2 } { out := [], err := [], ending := .never, sigpipeDies := false }
       (init { d16Cfg with timeout := 2 } { out := [], err := [], ending := .never, sigpipeDies := false })
       [.main, .main, .main, .tick, .main, .main, .main, .main, .tick, .main, .main, .main, .main,
-       .main, .main, .rdEof .out, .rdEof .err, .main, .main]).map (fun s => (s.result, s.child))
+       .main, .main, .main, .rdEof .out, .rdEof .err, .main, .main]).map (fun s => (s.result, s.child))
     = some (some (.error .timeout), .reaped none .killed) := by decide
 
 end NaijaVerif.Capture
